@@ -111,6 +111,7 @@ Plan generate(uint64_t seed, uint64_t run, bool thorough) {
     p.set("aggr_block", 0, 0);      // pointwise (block_size = 2) aggregation of a scalar problem is not a meaningful configuration (singular coarse levels): only from an explicit plan
     draw_schedule(r, p.sched, (int)p.get("R"));
     draw_vary_params(r, p, 0.3);
+    p.set("rebuild", r.chance(0.15) ? 1 : 0, 0);      // mpi::amg::rebuild with 2*A, compared with a fresh solver for 2*A
     return p;
 }
 
@@ -170,6 +171,11 @@ Result execute(const Plan &p) {
     }
     const double eps_strong_used = prm.get("precond.coarsening.aggr.eps_strong", 0.08);      // a double parameter in the distributed PMIS
     std::vector<double> x(n, 0.0); std::vector<double> iters(R, -1), resid(R, -1);
+    // history on one distributed hierarchy: rebuild with the matrix scaled by two (every operation of the setup and the solve is exact
+    // under a power-of-two scaling, so the rebuilt object must act bit for bit like a fresh one built for 2*A)
+    const bool do_rebuild = p.get("rebuild", 0) != 0 && kind == K_MPI_AMG && nscols == 0;
+    if (do_rebuild) prm.put("precond.allow_rebuild", true);
+    std::vector<double> x2(n, 0.0), x3(n, 0.0), it2(R, -1), rs2(R, -1), it3(R, -1), rs3(R, -1);
     bool any_empty = false; for (int r = 0; r < R; ++r) if (rp[r+1] == rp[r]) any_empty = true;
 
     g_levels.clear(); g_rank_level.assign(R, 0);
@@ -220,6 +226,17 @@ Result execute(const Plan &p) {
         size_t it; double rs; std::tie(it, rs) = solve(fl, xl);
         iters[rank] = (double)it; resid[rank] = rs;
         for (long i = r0; i < r1; ++i) x[i] = xl[i - r0];
+        if (do_rebuild) {
+            std::vector<double> v2(S.val); for (size_t q2 = 0; q2 < v2.size(); ++q2) v2[q2] *= 2;
+            auto dA2 = std::make_shared<DM>(comm, std::make_tuple((size_t)S.n, std::ref(S.ptr), std::ref(S.col), std::ref(v2)));
+            solve.precond().rebuild(dA2);
+            std::vector<double> x2l(r1 - r0, 0.0); std::tie(it, rs) = solve(fl, x2l); it2[rank] = (double)it; rs2[rank] = rs;
+            for (long i = r0; i < r1; ++i) x2[i] = x2l[i - r0];
+            auto dA3 = std::make_shared<DM>(comm, std::make_tuple((size_t)S.n, std::ref(S.ptr), std::ref(S.col), std::ref(v2)));
+            Solver fresh(comm, dA3, lprm);
+            std::vector<double> x3l(r1 - r0, 0.0); std::tie(it, rs) = fresh(fl, x3l); it3[rank] = (double)it; rs3[rank] = rs;
+            for (long i = r0; i < r1; ++i) x3[i] = x3l[i - r0];
+        }
     });
     res.absorb(out.sched); res.deviations = out.sched.deviations;
     if (getenv("C12_DEBUG")) for (size_t l = 0; l < g_levels.size(); ++l) { const LevelRec &L = g_levels[l]; std::map<long, std::set<long> > mem; for (Entries::const_iterator q = L.P.begin(); q != L.P.end(); ++q) mem[q->first.second / std::max<long>(nscols, 1)].insert(q->first.first);
@@ -266,6 +283,17 @@ Result execute(const Plan &p) {
                 if (resid[0] < tol && !(rstar < 1.05 * tol + delta)) res.fail(sig("truthful-residual", "reported-converged-but-is-not", fmt("reported %.6g after %.0f iterations, true global residual %.6g", resid[0], iters[0], rstar)));
                 else if (!(resid[0] < tol && rstar < tol) && !(std::fabs(resid[0] - rstar) <= 0.05 * std::max(resid[0], rstar) + delta)) res.fail(sig("truthful-residual", "reported-differs-from-true", fmt("reported %.6g, true %.6g after %.0f iterations", resid[0], rstar, iters[0])));
                 res.counts["truthfulness_evaluated"]++;
+            }
+            if (do_rebuild) {
+                res.counts["rebuild_worlds"]++;
+                for (int r = 1; r < R; ++r) if (!bits_equal(it2[r], it2[0]) || !bits_equal(rs2[r], rs2[0])) { res.fail(sig("rank-consistent", "same-iterations-and-residual-after-rebuild", fmt("rank 0: %.0f iterations, residual %.17g; rank %d: %.0f, %.17g", it2[0], rs2[0], r, it2[r], rs2[r]))); break; }
+                bool same = bits_equal(it2[0], it3[0]) && bits_equal(rs2[0], rs3[0]); long at = -1;
+                for (long i = 0; i < n && same; ++i) if (!bits_equal(x2[i], x3[i])) { same = false; at = i; }
+                if (!same) res.fail(sig("rebuilt-equals-fresh", "rebuild(2A)-vs-fresh(2A)", fmt("rebuilt: %.0f iterations, residual %.17g; fresh: %.0f iterations, residual %.17g; first differing unknown %ld (%.17g vs %.17g)", it2[0], rs2[0], it3[0], rs3[0], at, at >= 0 ? x2[at] : 0.0, at >= 0 ? x3[at] : 0.0)));
+                // the rebuilt solver is truthful about the new system
+                long double r2 = 0; bool fin2 = true; for (long i = 0; i < n; ++i) { long double t = f[i]; for (ptrdiff_t j = A.ptr[i]; j < A.ptr[i+1]; ++j) t -= 2.0L * A.val[j] * x2[A.col[j]]; r2 += t * t; if (!std::isfinite(x2[i])) fin2 = false; }
+                double rstar2 = (double)std::sqrt((double)(r2 / (ff > 0 ? ff : 1)));
+                if (fin2 && std::isfinite(rstar2) && delta < 0.1 * tol && rs2[0] < tol && !(rstar2 < 1.05 * tol + 4 * delta)) res.fail(sig("truthful-residual", "reported-converged-but-is-not-after-rebuild", fmt("reported %.6g after %.0f iterations, true global residual %.6g for the rebuilt system", rs2[0], it2[0], rstar2)));
             }
             // (the stationary Richardson iteration must not diverge - its rate with block-local smoothers can be slow -, the Krylov methods must reach the tolerance)
             // ---- distributed coarsening structure (recorded through the policy seam), levels small enough for a dense model
